@@ -15,6 +15,7 @@ outside every theorem).  Regression arrays are `samples × outputs` matrices, pr
 with every class present.
 -/
 import Xrfmv.Lemmas.Metrics
+import Xrfmv.Model.MetricOps
 
 namespace Xrfmv.Props.C16
 open Xrfmv Xrfmv.Metrics
@@ -76,6 +77,44 @@ theorem rmse_perfect_is_optimal (Y P Q : List (List ℝ)) :
     rmse Y P = Real.sqrt (mse Y P) ∧ rmse Y Y = 0 ∧ 0 ≤ rmse Y P ∧
       (rmse Y P ≤ rmse Y Q ↔ mse Y P ≤ mse Y Q) :=
   ⟨rfl, rmse_self Y, rmse_nonneg Y P, rmse_le_iff Y P Q⟩
+
+/-! ### the metric chains as they are written (regenerated `Gen.MetricOps`) -/
+
+theorem sqDiffs_eq_zipWith (y p : List ℝ) :
+    sqDiffs y p = List.zipWith (fun a b => (a - b) * (a - b)) y p := by
+  induction y generalizing p with
+  | nil => cases p <;> rfl
+  | cons a y ih => cases p with
+    | nil => rfl
+    | cons b p => simp [sqDiffs, ih]
+
+theorem absDiffs_eq_zipWith (y p : List ℝ) :
+    absDiffs y p = List.zipWith (fun a b => HasAbs.abs (a - b)) y p := by
+  induction y generalizing p with
+  | nil => cases p <;> rfl
+  | cons a y ih => cases p with
+    | nil => rfl
+    | cons b p => simp [absDiffs, ih]
+
+/-- **C16 over the regenerated source (mean-type metrics).**  The `_compute` chains of MSE, RMSE, MAE and Brier as they are written
+now (translated into `Gen.MetricOps` on every run: which arrays are subtracted, `.square()` or `.abs()`, `.mean()` over all
+entries, a final `.sqrt()` for RMSE only) evaluate exactly the metrics of `Model/Metrics.lean` — the ones for which the theorems
+above prove that perfect predictions are optimal in the declared direction. -/
+theorem gen_mean_metrics_eq_model (Y P : List (List ℝ)) (y : List ℕ) :
+    MetricOps.evalMean Gen.MetricOps.mse Y.flatten P.flatten = mse Y P ∧
+    MetricOps.evalMean Gen.MetricOps.rmse Y.flatten P.flatten = rmse Y P ∧
+    MetricOps.evalMean Gen.MetricOps.mae Y.flatten P.flatten = mae Y P ∧
+    MetricOps.evalMean Gen.MetricOps.brier (perfect (numClasses P) y : List (List ℝ)).flatten P.flatten = brier y P := by
+  refine ⟨?_, ?_, ?_, ?_⟩ <;>
+    simp [MetricOps.evalMean, MetricOps.Entry.apply, MetricOps.Post.apply, Gen.MetricOps.mse, Gen.MetricOps.rmse,
+      Gen.MetricOps.mae, Gen.MetricOps.brier, mse, rmse, mae, brier, mseFlat, maeFlat, sqDiffs_eq_zipWith, absDiffs_eq_zipWith]
+
+/-- … each of them takes its mean over all entries, subtracts the predictions from the targets (for Brier: from the one-hot rows of
+the labels, with as many classes as the probability array has columns). -/
+theorem gen_mean_metrics_shape :
+    [Gen.MetricOps.mse, Gen.MetricOps.rmse, Gen.MetricOps.mae, Gen.MetricOps.brier].all (·.meanOverAllEntries) = true ∧
+    Gen.MetricOps.mse.subtrahend = "y_pred" ∧ Gen.MetricOps.mse.minuend = "y_true_reg" ∧
+    Gen.MetricOps.brier.subtrahend = "y_pred_proba" := by decide
 
 /-- **C16 (logloss, a loss)** The log-loss is `0` at the one-hot rows of the targets and `≥ 0` for every
 probability matrix with entries in `(0, 1]`. -/
